@@ -110,6 +110,7 @@ def run(prop, tier, seed):
         operations_by_kind=res.ops_by_kind, calls_by_predicted_outcome=res.calls,
         reports_observed_by_kind=res.reports_seen,
         triggers={k: len(s) for k, s in sorted(res.trig_hashes.items())},
+        distinct_model_states_reached_estimate=16 * len(res.states),
         scenarios_cut_at_dont_care=res.cuts, cut_reasons=res.cut_reasons,
         mismatches_owned_by_other_properties=res.foreign,
         regression_probes_run=nprobe, scoped_form_scene_lines_compared=nscoped, exhaustive=any(k.startswith('exh:') for k in res.by_spec),
